@@ -2,8 +2,11 @@
 
 Proof: coq/C06/Props.v (decimal rendering lexical/exact/no-exponent for every
 Decimal; half-up rounding, zone offsets, isoformat round trip, day carry for
-every field value).  Tie to the code: tables regenerated from suds, and the
-model run against XDecimal/XBoolean/Date/Time/DateTime on generated inputs.
+every field value; the date/time scanner of the model IS the three regular
+expressions of suds/sax/date.py, for all strings).  Tie to the code: tables and
+the regex ASTs regenerated from suds on every run (tools/tables_c06.py), the
+model run against XDecimal/XBoolean/Date/Time/DateTime on generated inputs,
+and the Coq regex semantics run against CPython's `re` on the same texts.
 """
 import datetime
 import decimal
@@ -19,9 +22,16 @@ THEOREMS = [
     "bool_roundtrip", "bool_lexical", "bool_reads_all_lexical_forms",
     "time_round_half_up", "scanned_fields_lexical", "zone_exact", "zone_offset",
     "time_roundtrip", "date_roundtrip", "datetime_roundtrip", "datetime_carry", "malformed_raises",
+    "regex_matcher_correct", "scanner_is_regex_date", "scanner_is_regex_time", "scanner_is_regex_datetime",
+    "scanner_is_python_match",
 ]
 
 PRE = "From SV Require Import Lib.Base C06.Decimal C06.DateTime C06.Floats."
+# the regex cross-check needs the regenerated ASTs and the matcher, NOT the proofs
+# (it must still run, and produce witnesses, when the proofs no longer go through)
+PRE_RX = ("From SV Require Import Lib.Base C06.Decimal C06.DateTime C06.Regex C06.RegexScan "
+          "Gen.C06Tables.")
+RX_KIND = {"time": (0, "_RE_TIME"), "date": (1, "_RE_DATE"), "datetime": (2, "_RE_DATETIME")}
 
 KNOWN_PATTERNS = {
     "_PATTERN_DATE": r"^(?P<year>\d{1,})-(?P<month>\d{1,2})-(?P<day>\d{1,2})(?:(?:(?P<tz_sign>[-+])(?P<tz_hour>\d{1,2})(?::(?P<tz_minute>[0-5]?[0-9]))?)|(?P<tz_utc>[Zz]))?$",
@@ -375,21 +385,27 @@ def run(ck):
 
     ck.trusted = [
         "Coq 8.16.1 kernel + vm_compute (correspondence evaluation); no native_compute",
-        "tools/gen_tables.py: XBoolean tables, Factory.tags, date/time pattern strings regenerated from /repo",
+        "tools/gen_tables.py + tools/tables_c06.py: XBoolean tables, Factory.tags regenerated from /repo; the "
+        "compiled _RE_DATE/_RE_TIME/_RE_DATETIME (.pattern, .flags) translated from CPython's parse tree "
+        "(re._parser) into the Coq regex AST, fail-closed",
         "correspondence harness harness/c06.py (generators, canonical forms, exact-rational oracle)",
-        "modelled, not verified: CPython Decimal.as_tuple/str(int)/float.__repr__/datetime.isoformat, re",
+        "modelled, not verified: CPython Decimal.as_tuple/str(int)/float.__repr__/datetime.isoformat; "
+        "CPython's regex engine is modelled by coq/C06/Regex.v (semantics + matcher proved equivalent) and "
+        "compared with `re` on every generated text",
     ]
     ck.notes = [
-        "the lenient lexical space of date/time text is the scanner model (validated against re on every run)",
+        "the lenient lexical space of date/time text is the scanner model, PROVED equal (all strings, same "
+        "capture groups) to the regexes regenerated from the source; that Date/Time/DateTime.__parse use "
+        "pattern.match and read the groups by name is covered by the executed correspondence",
         "float arithmetic is not modelled: only the lexical form of repr and Python-side float(repr(x)) == x",
     ]
     gen_tables.generate("C06Tables")
     proof_ok = ck.prove(THEOREMS)
 
-    # ---- regex text drift: the scanner was written against these strings
-    drift = [n for n, p in KNOWN_PATTERNS.items() if getattr(sdate, n) != p]
-    flags_ok = all(getattr(sdate, n).flags & re.ASCII for n in ("_RE_DATE", "_RE_TIME", "_RE_DATETIME"))
-    ck.extra["regex_text_matches_scanner_model"] = (not drift) and flags_ok
+    # ---- regex text drift: informational only (the tie is the proof scanner_is_regex_* over the
+    # regenerated ASTs; an equivalent rewrite of the patterns that translates to the same AST is fine)
+    drift = [n for n, p in KNOWN_PATTERNS.items() if getattr(sdate, n, None) != p]
+    ck.extra["regex_text_unchanged"] = not drift
 
     fails = []   # (kind, case description, agrees?, spec_ok?)
 
@@ -431,6 +447,25 @@ def run(ck):
     bad = gen_malformed(ck, valid_pool)
 
     pcases, pmeta = [], []
+    rmeta, rx_errors = [], []
+
+    def rx_spans(kind, text):
+        """What the compiled pattern of the source answers on `text`: None | spans of its groups
+        (cross-check of the Coq regex semantics, see x_regex_agrees); recorded in rmeta."""
+        nm = RX_KIND[kind][1]
+        try:
+            m = getattr(sdate, nm).match(text)
+            spans = None if m is None else [m.span(i + 1) for i in range(m.re.groups)]
+            groups = None if m is None else list(m.groups())
+        except Exception as ex:  # noqa
+            rx_errors.append((nm, text, repr(ex)))
+            spans = groups = None
+        rmeta.append((nm, text, groups))
+        ck.count("regex-vs-re-" + ("match" if spans is not None else "nomatch"))
+        if spans is None:
+            return "None"
+        return "(Some %s)" % clist(["None" if a < 0 else "(Some (%s, %s))" % (common.cnat(a), common.cnat(b))
+                                    for a, b in spans], "option (nat * nat)")
 
     def add_parse(kind, text, exp):
         if kind == "time":
@@ -440,18 +475,18 @@ def run(ck):
                 cr = "(Ok (%s, %s))" % (c_tod(r[1]), tz)
             else:
                 cr = c_res(r, None)
-            pcases.append("(%s, PTime %s)" % (cstr(text), cr))
+            pcases.append("(%s, PTime %s, %s)" % (cstr(text), cr, rx_spans(kind, text)))
         elif kind == "date":
             r = run_impl(lambda s: sdate.Date(s).value, text)
             cr = c_res(r, c_civil)
-            pcases.append("(%s, PDate %s)" % (cstr(text), cr))
+            pcases.append("(%s, PDate %s, %s)" % (cstr(text), cr, rx_spans(kind, text)))
         else:
             r = run_impl(lambda s: sdate.DateTime(s).value, text)
             if r[0] == "ok":
                 cr = "(Ok (%s, %s, %s))" % (c_civil(r[1].date()), c_tod(r[1].time()), c_tz(r[1].tzinfo))
             else:
                 cr = c_res(r, None)
-            pcases.append("(%s, PDateTime %s)" % (cstr(text), cr))
+            pcases.append("(%s, PDateTime %s, %s)" % (cstr(text), cr, rx_spans(kind, text)))
         pmeta.append((kind, text, r, exp))
         ck.seen((kind, text), nontrivial=True)
         ck.count("parse-" + kind + ("-ok" if r[0] == "ok" else "-" + r[0]))
@@ -512,15 +547,27 @@ def run(ck):
             add_parse(kind, s, None)
     ck.sample({"parse": pmeta[5][1], "impl": repr(pmeta[5][2])})
     ck.sample({"parse": pmeta[-7][1], "impl": repr(pmeta[-7][2])})
-    res_p = ck.run_cases("parse", PRE, "str * pres", pcases, ["parse_agrees", "parse_spec_ok"], shard=500)
-    spec_bad = set(res_p["parse_spec_ok"])
+    # one shard set for: model vs implementation, spec on the implementation's result, the Coq regex
+    # semantics (on the AST regenerated from the source) vs CPython's engine, scanner vs that regex
+    res_p = ck.run_cases("parse", PRE_RX, "xcase", pcases,
+                         ["x_parse_agrees", "x_parse_spec_ok", "x_regex_agrees", "x_scanner_regex_agrees"],
+                         shard=500)
+    spec_bad = set(res_p["x_parse_spec_ok"])
     for i in sorted(spec_bad):
         kind, text, r, exp = pmeta[i]
         key, what = classify_parse_failure(text)
         ck.failing_input(key or "C06:parse-" + kind,
                          what or "%s text %r -> %r: not the value XSD defines / not rejected with ValueError" % (kind, text, r),
                          {"kind": kind, "text": text, "impl": repr(r)})
-    parse_disagree = [pmeta[i][:3] for i in res_p["parse_agrees"] if i not in spec_bad]
+    parse_disagree = [pmeta[i][:3] for i in res_p["x_parse_agrees"] if i not in spec_bad]
+
+    # ---- the Coq regex semantics against CPython's engine, and the scanner against the
+    # regenerated regex, on every (pattern, text) above
+    rx_sem_bad = [rmeta[i] for i in res_p["x_regex_agrees"]]
+    rx_scan_bad = [rmeta[i] for i in res_p["x_scanner_regex_agrees"]]
+    ck.extra["regex_crosscheck"] = {"cases": len(rmeta), "semantics_vs_cpython_disagree": len(rx_sem_bad),
+                                    "scanner_vs_regenerated_regex_disagree": len(rx_scan_bad)}
+    ck.sample({"regex": rmeta[7][0], "text": rmeta[7][1], "groups": rmeta[7][2]})
 
     # ---- writing --------------------------------------------------------
     rng = ck.rng
@@ -650,17 +697,32 @@ def run(ck):
 
     # ---- proof / correspondence broken without a failing input -----------
     if not proof_ok:
-        ck.unproved("proof obligation of C06 no longer checks: " + ck.proof_log[-1500:],
-                    {"theorems": THEOREMS, "log": ck.proof_log[-3000:]})
+        wit = ""
+        if rx_scan_bad:
+            nm, text, py = rx_scan_bad[0]
+            wit = ("witness: %s.match(%r) -> %s but the scanner model says %s; " %
+                   (nm, text, "groups %r" % (py,) if py is not None else "None",
+                    "no match" if py is not None else "match"))
+        ck.unproved("proof obligation of C06 no longer checks: " + wit + ck.proof_log[-1500:],
+                    {"theorems": THEOREMS, "log": ck.proof_log[-3000:],
+                     "scanner_vs_regex_witnesses": [(n, t, g) for n, t, g in rx_scan_bad[:5]]})
+    elif rx_scan_bad:
+        ck.unproved("the scanner model and the regenerated regex disagree on a concrete text although "
+                    "scanner_is_python_match is proved: harness/translator inconsistency",
+                    {"witnesses": [(n, t, g) for n, t, g in rx_scan_bad[:5]]})
+    if rx_sem_bad or rx_errors:
+        ck.unproved("the Coq regex semantics (coq/C06/Regex.v, run on the AST translated from the source) "
+                    "does not answer what CPython's re answers: %r" % ((rx_sem_bad or rx_errors)[0],),
+                    {"correspondence": "regex_agrees", "disagreements": [(n, t, g) for n, t, g in rx_sem_bad[:5]],
+                     "errors": rx_errors[:5]})
     disagree = {"decimal": [(str(v), o) for v, o in dec_disagree[:5]],
                 "parse": [(k, t, repr(r)) for k, t, r in parse_disagree[:5]],
                 "write": write_disagree[:5]}
-    if any(disagree.values()) or drift or not flags_ok:
+    if any(disagree.values()):
         ck.unproved("model/implementation correspondence of C06 no longer holds "
                     "(the implementation meets the executable spec on every generated input, "
                     "but it is no longer the algorithm the theorems are about)",
-                    {"correspondence": "C06 agrees", "disagreements": disagree,
-                     "regex_drift": drift, "re.ASCII": flags_ok})
+                    {"correspondence": "C06 agrees", "disagreements": disagree})
 
 
 def replay(ck, payload):
